@@ -35,6 +35,18 @@ def PCtx.link (K : PCtx) : Word := K.hi (K.sp + K.S)
 /-- The word `a` is an element of a global array. -/
 def PCtx.inArr (K : PCtx) (a : Nat) : Prop := ∃ id, K.abase id ≤ a ∧ a < K.abase id + K.asize id
 
+/-- The string literals of the program: each one's label is followed by its packed words, in the
+    data area below the stack, apart from every variable. -/
+structure PCtx.StrOK (K : PCtx) : Prop where
+  lbl : ∀ l bs ws, (l, bs) ∈ K.strs → X.packString bs = .ok ws →
+    ∃ j k, K.env.ds[j]? = some (.label k l) ∧ K.env.addr j % 4 = 0 ∧ 2 ≤ K.env.addr j / 4 ∧
+      K.env.addr j / 4 + ws.length ≤ K.sp
+  sep : ∀ l bs ws j k n a idx, (l, bs) ∈ K.strs → X.packString bs = .ok ws → K.env.ds[j]? = some (.label k l) →
+    K.loc n = some a → idx < ws.length → K.env.addr j / 4 + idx ≠ a
+
+theorem PCtx.strOK_of_none (K : PCtx) (h : K.strs = []) : K.StrOK :=
+  ⟨fun l bs ws hm => by rw [h] at hm; simp at hm, fun l bs ws j k n a idx hm => by rw [h] at hm; simp at hm⟩
+
 structure PCtx.WF (K : PCtx) : Prop where
   nodup : (labelNames K.env.ds).Nodup
   var_global : ∀ n sym a, K.ctx.tbl.lookup K.ctx.scope n = .ok sym → sym.scope = "" → K.loc n = some a →
@@ -52,6 +64,7 @@ structure PCtx.WF (K : PCtx) : Prop where
     K.abase id1 + K.asize id1 ≤ K.abase id2 ∨ K.abase id2 + K.asize id2 ≤ K.abase id1
   arr_code : ∀ id k, k < K.asize id → K.env.isCode (K.abase id + k) = false
   loc_na : ∀ n a, K.loc n = some a → ¬ K.inArr a
+  str : K.StrOK
 
 /-- The name `n` is bound to the `val` `w` (locally, or globally and not hidden). -/
 def ValBound (xc : X.Ctx) (σ : X.St) (n : String) (w : Word) : Prop :=
@@ -84,6 +97,8 @@ structure Rep (K : PCtx) (σ : X.St) (mem : Mem) : Prop where
     ∃ id a, r = .glob id ∧ K.loc n = some a ∧ a < memWords ∧ mem.read a = BitVec.ofNat 32 (K.abase id)
   acells : ∀ id cells, σ.arrays[id]? = some cells → cells.size = K.asize id ∧
     ∀ idx w, cells[idx]? = some (some w) → mem.read (K.abase id + idx) = w
+  strs : ∀ l bs ws j k, (l, bs) ∈ K.strs → X.packString bs = .ok ws → K.env.ds[j]? = some (.label k l) →
+    ∀ idx (h : idx < ws.length), mem.read (K.env.addr j / 4 + idx) = ws[idx]
 
 /-- The array part of `PCtx.WF`. -/
 structure PCtx.ArrOK (K : PCtx) : Prop where
@@ -121,7 +136,7 @@ theorem Rep.same {K : PCtx} {σ σ' : X.St} {mem : Mem} (h : Rep K σ mem) (hs :
    fun n hv => h.locs n (by unfold IsVar at hv ⊢; rw [← hs.2.1]; exact hv), h.above,
    fun n hn => by rw [hs.2.1]; exact h.gvis n hn, by rw [hs.2.2.2.2.2]; exact h.depth,
    fun n r hr => h.aptr n r (by rw [← readName_same K.xc σ σ' n hs]; exact hr),
-   fun id cells hc => h.acells id cells (by rw [← hs.2.2.1]; exact hc)⟩
+   fun id cells hc => h.acells id cells (by rw [← hs.2.2.1]; exact hc), h.strs⟩
 
 /-- Memory changed at most in the frame slots with offsets in `[lo, hi)`. -/
 def Frm (K : PCtx) (lo hi : Nat) (mem mem' : Mem) : Prop :=
@@ -161,7 +176,7 @@ theorem Rep.frame {K : PCtx} (wf : K.WF) {σ : X.St} {mem mem' : Mem} {lo hi : N
     intro k h1 h2
     unfold PCtx.slot
     omega
-  refine ⟨?_, h.vals, ?_, ?_, h.locs, ?_, h.gvis, h.depth, ?_, ?_⟩
+  refine ⟨?_, h.vals, ?_, ?_, h.locs, ?_, h.gvis, h.depth, ?_, ?_, ?_⟩
   rotate_left 3
   · intro a ha hna; rw [key a (Or.inr (by omega))]; exact h.above a ha hna
   · intro n r hr
@@ -177,6 +192,15 @@ theorem Rep.frame {K : PCtx} (wf : K.WF) {σ : X.St} {mem mem' : Mem} {lo hi : N
     have := (wf.arr_hi id (by omega)).1
     rw [key _ (Or.inr (by omega))]
     exact hv idx w hi
+  · intro l bs ws j k hm hp hd idx hidx
+    obtain ⟨j', k', hd', _, _, hlt⟩ := wf.str.lbl l bs ws hm hp
+    have hj : j = j' := by
+      have e1 := labelIdx_of_nodup _ _ _ _ wf.nodup hd
+      have e2 := labelIdx_of_nodup _ _ _ _ wf.nodup hd'
+      rw [e1] at e2; simpa using e2
+    subst hj
+    rw [key _ (Or.inl (by omega))]
+    exact h.strs l bs ws j k hm hp hd idx hidx
   · rw [key 1 (Or.inl (by have := wf.sp_ge; omega))]; exact h.sp
   · intro n w hn hr
     obtain ⟨a, ha, hlt, hv⟩ := h.vars n w hn hr
